@@ -418,6 +418,14 @@ pub fn gen_scenario(run_seed: u64, pool: &Pool) -> Scenario {
                 op.faults.push(Fault::CbPanic { j: fr.below(3) as u32 });
                 hard_budget -= 1;
             }
+            // a third of the operations with an injected panic also get an operation that the
+            // caller performs from a destructor while that panic unwinds (plain parse or metadata
+            // pass of some input, on the same parser half of the time)
+            if op.faults.iter().any(|f| matches!(f, Fault::IterPanic { .. } | Fault::CbPanic { .. })) && fr.chance(1, 3) {
+                let kind = if fr.chance(1, 3) { OpKind::Metadata { via: Via::Direct, cb: None } } else { OpKind::Parse { via: Via::Direct, cb: None, truncate: None } };
+                let inner = Op { kind, parser: if fr.chance(1, 2) { op.parser } else { fr.below(np) }, input: fr.below(ni), faults: vec![], align: 0 };
+                op.faults.push(Fault::Reenter { seam: SeamKind::Unwind, n: 0, op: Box::new(inner) });
+            }
             if sw.reenter && reenter_budget > 0 && fr.chance(1, 5) {
                 let seam = match (adapter.is_some(), has_cb, fr.below(3)) {
                     (true, _, 0) => SeamKind::Iter,
